@@ -1,0 +1,38 @@
+//go:build verif
+// +build verif
+
+package txpool
+
+import (
+	"fmt"
+	"sort"
+	"strings"
+)
+
+// This file is compiled only with the "verif" build tag (verification harnesses in /verif).
+
+// VerifSetDefaultPoolCap changes the initial capacity of new pools, so that capacity growth is
+// reachable with a handful of transactions.
+func VerifSetDefaultPoolCap(n int) { defaultPoolCap = n }
+
+// VerifDump renders the slots (nil slots as "-"), the hash index and the capacity of a pool. No lock
+// is taken: call it when no other goroutine uses the pool.
+func VerifDump(pool *TxPool) string {
+	var sb strings.Builder
+	sb.WriteString("slots[")
+	for _, tx := range pool.txs {
+		if tx == nil {
+			sb.WriteString("- ")
+		} else {
+			h := tx.Hash()
+			fmt.Fprintf(&sb, "%x ", h[:3])
+		}
+	}
+	idx := make([]string, 0, len(pool.hashIndexMap))
+	for h, i := range pool.hashIndexMap {
+		idx = append(idx, fmt.Sprintf("%x:%d", h[:3], i))
+	}
+	sort.Strings(idx)
+	fmt.Fprintf(&sb, "] index{%s} cap=%d", strings.Join(idx, " "), pool.cap)
+	return sb.String()
+}
